@@ -335,3 +335,47 @@ Proof.
     apply Rmult_le_reg_r with (total + 1 / 1000000); [exact Hd|].
     unfold Rdiv. rewrite Rmult_assoc, Rinv_l by lra. lra.
 Qed.
+
+(* ---------- SAC actor: any number of critics ---------- *)
+Lemma fold_min_swap t : forall a b, fold_right Rmin a (b :: t) = Rmin a (fold_right Rmin b t).
+Proof.
+  induction t as [|c t IH]; intros a b.
+  - cbn [fold_right]. apply Rmin_comm.
+  - change (fold_right Rmin a (b :: c :: t)) with (Rmin b (fold_right Rmin a (c :: t))).
+    change (fold_right Rmin b (c :: t)) with (Rmin c (fold_right Rmin b t)).
+    rewrite (IH a c).
+    assert (E : Rmin c (fold_right Rmin b t) = Rmin b (fold_right Rmin c t)) by (rewrite <- (IH b c); reflexivity).
+    rewrite E. rewrite !Rmin_assoc. f_equal. apply Rmin_comm.
+Qed.
+
+Lemma min_list_cons a t : t <> [] -> min_list (a :: t) = Rmin a (min_list t).
+Proof. destruct t as [|b t]; [congruence|]. intros _. cbn [min_list]. apply (fold_min_swap t a b). Qed.
+
+(* the minimum over a list with one distinguished entry x: min(x, min of the others) *)
+Lemma min_list_insert pre x post : pre ++ post <> [] ->
+  min_list (pre ++ x :: post) = Rmin x (min_list (pre ++ post)).
+Proof.
+  induction pre as [|a pre IH]; intros H; cbn [app] in *.
+  - apply min_list_cons. exact H.
+  - destruct (pre ++ post) as [|b r] eqn:E.
+    + assert (pre = [] /\ post = []) as [-> ->] by (apply app_eq_nil; exact E).
+      cbn [app min_list fold_right]. reflexivity.
+    + rewrite (min_list_cons a (pre ++ x :: post)) by (destruct pre; discriminate).
+      rewrite IH by discriminate.
+      rewrite (min_list_cons a (b :: r)) by discriminate.
+      rewrite !Rmin_assoc. f_equal. apply Rmin_comm.
+Qed.
+
+(* the actor gradient flows (with -1) only through the strictly smallest critic; every other critic gets 0 *)
+Lemma sac_actor_dq_general alpha lp pre x post : pre ++ post <> [] ->
+  (x < min_list (pre ++ post) -> is_derive (fun y => sac_actor_term alpha lp (pre ++ y :: post)) x (-1)) /\
+  (min_list (pre ++ post) < x -> is_derive (fun y => sac_actor_term alpha lp (pre ++ y :: post)) x 0).
+Proof.
+  intros H. set (m := min_list (pre ++ post)). split; intros Hx.
+  - apply (derive_local_affine _ x (-1) (alpha * lp) (m - x)); [lra|].
+    intros y Hy. apply Rabs_lt_both in Hy. cbv beta. unfold sac_actor_term. Show. rewrite (min_list_insert pre y post H).
+    fold m. rewrite Rmin_left by lra. ring.
+  - apply (derive_local_affine _ x 0 (alpha * lp - m) (x - m)); [lra|].
+    intros y Hy. apply Rabs_lt_both in Hy. cbv beta. unfold sac_actor_term. rewrite (min_list_insert pre y post H).
+    fold m. rewrite Rmin_right by lra. ring.
+Qed.
